@@ -203,16 +203,21 @@ var settleState *State
 
 func init() {
 	verifrt.SettleHook = func() {
+		// loads that were kept in flight may finish now; the next ones wait again
+		openLoadGate()
+		defer closeLoadGate()
 		s := settleState
 		if s == nil {
 			time.Sleep(10 * time.Millisecond)
 			return
 		}
-		for i := 0; i < 4000; i++ {
+		for i := 0; i < 1000; i++ {
 			s.m.Lock()
 			busy := s.mode == loading || s.mode == opening
-			if !busy && !s.h.IsEmpty() {
-				p := s.h.Current()
+			// a load belongs to the page that asked for it, which need not be
+			// the current one any more: wait for every page
+			for k := 0; !busy && k < history.VerifLen(&s.h); k++ {
+				p := history.VerifAt(&s.h, k)
 				busy = p.loadingUp || p.loadingDown
 			}
 			s.m.Unlock()
